@@ -39,7 +39,16 @@ def valid_default(rng, f, tmp, keypath):
         enc = F.enc_val(out)
         if F.has_opaque(enc):
             continue
-        return F.unproxy(out) if hasattr(F, "unproxy") else plain_copy(out)
+        res = F.unproxy(out) if hasattr(F, "unproxy") else plain_copy(out)
+        if f["k"] in ("list", "dict"):
+            # a container default also has to survive construction (items of a list with AnyField items are only looked at there)
+            try:
+                s2 = Schema()
+                s2.fld = F.build_field(dict(f, custom=None, default=plain_copy(res)), tmp)
+                s2()
+            except Exception:  # noqa
+                continue
+        return res
     return None
 
 
